@@ -313,6 +313,24 @@ func TestVerifC22(t *testing.T) {
 		r.Distinct(fmt.Sprintf("cl|%d|%d|%d", c.Key, c.Hash, c.Window))
 	}
 
+	// pass 1b (sequential): one node coordinating many wallets in the same window - the
+	// checklists of all seeds of a window are computed one right after the other, in both
+	// orders (whatever the process remembers about a window must not leak between wallets)
+	for w := 1; w <= windows; w++ {
+		for _, rev := range []bool{false, true} {
+			for i := 0; i < keys*hashes; i++ {
+				j := i
+				if rev {
+					j = keys*hashes - 1 - i
+				}
+				c := c22Case{Key: j / hashes, Hash: j % hashes, Window: uint64(w)}
+				got, want := checklistCheck(c, "AB")
+				held = append(held, c22Held{c, got, want})
+				r.Eval(1)
+			}
+		}
+	}
+
 	// pass 2 (parallel): the leader of every case through every view
 	vrep.Parallel(vrep.Workers(), len(cases), func(i int) {
 		if r.Expired() {
